@@ -456,7 +456,7 @@ func (g *G) Regex(d int) string {
 		"[\\x80-\\xff]", "\\p{Lu}", "\\p{Any}", "[\\p{L}-[a-z]]", "é", "😀", ".", "{eoi}", "\\t", "[ \\t]", "\\-", "\\*", "\\(", "\\)", "\\[", "\\]", "\\{", "\\}", "\\|", "\\+", "\\?"}
 	hostileAtoms := []string{"a{1000000}", "a{0,99999999999999999999}", "(a{30}){30}", "a{3,2}", "a{,3}", "a{-1}", "[z-a]", "[", "]", "(", ")", "{", "}", "{undefinedPattern}", "\\p{Bogus}",
 		"\\x", "\\u12", "\\U00110000", "\\xff", "\xff\xfe", "[a-\\d]", "[^]", "[]", "(?i)a", "(?", "a**", "+", "?", "|", "||", "\\", "{a", "\\Q", "\\1", "[\\p{Lu}-[\\p{Lu}]]", "[a-z-[a-z]]", "{eoi}{eoi}", "{eoi}a", "()", "(|)",
-		strings.Repeat("(", 200) + "a" + strings.Repeat(")", 200), strings.Repeat("a?", 40) + strings.Repeat("a", 40), "(a|b)*abb(a|b){12}", "[\\x00-\\U0010ffff]{3}", ".{1,200}"}
+		strings.Repeat("(", 200) + "a" + strings.Repeat(")", 200), strings.Repeat("a?", 40) + strings.Repeat("a", 40), "(a|b)*abb(a|b){12}", "[\\x00-\\U0010ffff]{3}", ".{1,16}"}
 	n := 1 + g.r.Intn(4)
 	var b strings.Builder
 	for i := 0; i < n; i++ {
@@ -472,6 +472,11 @@ func (g *G) Regex(d int) string {
 			a = g.pick(atoms)
 		}
 		b.WriteString(a)
+		if strings.ContainsAny(a, "{}") {
+			// no quantifier on top of a counted repetition: (a|b)*abb(a|b){12}{3,} needs 2^39 DFA
+			// states - subset construction is exponential by nature, that is not what is monitored
+			continue
+		}
 		switch g.r.Intn(9) {
 		case 0:
 			b.WriteString("*")
